@@ -199,9 +199,9 @@ func checkC13(cx *Ctx, r *Report) {
 	}
 	for _, s := range []fs{
 		{"samlp.LogoutResponseType", "InResponseTo", []string{"decoded:samlp.LogoutRequestType.Id"}, []string{"decoded:samlp.LogoutRequestType.Id"}, true},
-		{"samlp.LogoutResponseType", "Destination", []string{sloLoc}, []string{sloLoc}, true},
-		{"provider.LogoutResponse", "LogoutURL", []string{sloLoc}, []string{sloLoc}, true},
-		{"provider.LogoutResponseForm", "LogoutURL", []string{sloLoc}, []string{sloLoc}, true},
+		{"samlp.LogoutResponseType", "Destination", []string{sloLoc, "const:"}, []string{sloLoc}, true},
+		{"provider.LogoutResponse", "LogoutURL", []string{sloLoc, "const:"}, []string{sloLoc}, true},
+		{"provider.LogoutResponseForm", "LogoutURL", []string{sloLoc, "const:"}, []string{sloLoc}, true},
 		{"provider.LogoutResponseForm", "RelayState", []string{formRS}, []string{formRS}, true},
 		{"provider.LogoutResponse", "RelayState", []string{formRS}, []string{formRS}, true},
 		{"provider.LogoutResponse", "Issuer", entityIDSources, []string{"ext:iface:context.Context.Value#0"}, false},
